@@ -538,11 +538,13 @@ def run_merge_all(P):
     differently.  A re-wrapped array (`xr.DataArray(x.variable ...)`) keeps its label and lineage, marked `new-DataArray`."""
     fi = P.func("grid_ufunc:_rechunk_to_merge_in_boundary_chunks")
     dim = dimsym("AX", "center")
+    dim_y = dimsym("AY", "center")
     chunks = {"a": (Lin.sym("a0"), Lin.sym("a1")), "b": (Lin.sym("b0"), Lin.sym("b1"), Lin.sym("b2"))}
+    chunks_y = (Lin.sym("y0"), Lin.sym("y1"))  # both inputs are chunked along the second padded axis as well
 
     def variable(ev, o, n):
         if o.name in chunks and not o.eff:
-            return Obj("Variable", "variable", (), {"chunksizes": {dim: chunks[o.name], Sym("t"): (Lin.sym("ct"),)}})
+            return Obj("Variable", "variable", (), {"chunksizes": {dim: chunks[o.name], dim_y: chunks_y, Sym("t"): (Lin.sym("ct"),)}})
         return Obj("Variable", o.name, o.eff + (("variable",),), dict(o.attrs))
 
     def chunk(ev, recv, args, kw, node):
@@ -560,8 +562,9 @@ def run_merge_all(P):
     mm[("DataArray", "chunk")] = chunk
     mm[("Variable", "chunk")] = chunk
     ev = Evaluator(P, models={"xarray.DataArray": m_new_da}, attr_models=am, method_models=mm)
-    outs = ev.run_paths(fi, lambda: dict(padded_args=[make_da("pa", [Sym("t"), dim], name=Sym("name_of_pa")), make_da("pb", [Sym("t"), dim], name=Sym("name_of_pb"))], original_args=[make_da("a", [Sym("t"), dim]), make_da("b", [Sym("t"), dim])],
-                                         boundary_width_real_axes={AX: (1, 2)}, grid=make_grid(("AX", "AY"))))
+    outs = ev.run_paths(fi, lambda: dict(padded_args=[make_da("pa", [Sym("t"), dim_y, dim], name=Sym("name_of_pa")), make_da("pb", [Sym("t"), dim_y, dim], name=Sym("name_of_pb"))],
+                                         original_args=[make_da("a", [Sym("t"), dim_y, dim]), make_da("b", [Sym("t"), dim_y, dim])],
+                                         boundary_width_real_axes={AX: (1, 2), Sym("AY"): (0, 3)}, grid=make_grid(("AX", "AY"))))
     return fi, dim, chunks, outs
 
 
@@ -587,6 +590,12 @@ def _merge_all_inputs(ctx, P):
             got = tuple(pat.get(dim, ())) if isinstance(pat, dict) else None
             if got is None or len(got) != len(want[x.name]) or any(Lin.of(g) != Lin.of(w) for g, w in zip(got, want[x.name])):
                 bad = f"padded input {x.name} is re-chunked to {got!r} along the padded dimension; expected {want[x.name]!r} (from its own unpadded chunks)"
+            # the second padded axis (widths (0, 3)) is merged too: its last chunk takes the three new cells
+            dim_y = dimsym("AY", "center")
+            got_y = tuple(pat.get(dim_y, ())) if isinstance(pat, dict) else None
+            want_y = (Lin.sym("y0"), Lin.sym("y1") + Lin.of(3))
+            if got_y is None or len(got_y) != 2 or any(Lin.of(g) != Lin.of(w) for g, w in zip(got_y, want_y)):
+                bad = bad or f"padded input {x.name} is re-chunked to {got_y!r} along the second padded dimension; expected {want_y!r}: the boundary chunks of every padded axis must be merged"
     if bad:
         ctx.report("R06.5", fi, inst, bad)
     else:
